@@ -6,6 +6,7 @@ pub mod c11;
 pub mod c12;
 pub mod c14;
 pub mod c15;
+pub mod c16;
 pub mod c17;
 
 pub type RunFn = fn(&Run);
@@ -18,5 +19,6 @@ pub const REGISTRY: &[(&str, &str, RunFn, ReplayFn)] = &[
     ("C12", "exploration", c12::run, c12::replay),
     ("C14", "exploration", c14::run, c14::replay),
     ("C15", "exploration", c15::run, c15::replay),
+    ("C16", "exploration", c16::run, c16::replay),
     ("C17", "exploration", c17::run, c17::replay),
 ];
